@@ -334,6 +334,13 @@ def _grouping(ctx, cfg):
                 rows[1] = rows[0]
             batches.append((rows, bs))
         batches.append(([tuple(1 for _ in range(n))] * 2, ["Z" * n, "Z" * n]))
+        # one basis in NON-adjacent rows, interleaved with other bases and with the reference basis (a batch handed to
+        # gradient() directly need not be grouped by basis)
+        nz = [b for b in pool if b != "Z" * n]
+        b1, b2 = nz[0], nz[-1]
+        rows5 = [tuple((r >> i) & 1 for i in range(n)) for r in (1, 0, 2 ** n - 1, 1, 0)]
+        batches.append((rows5, [b1, "Z" * n, b1, b2, b1]))
+        batches.append((rows5[:3], [b2, b1, b2]))
         if n <= 2:
             # every basis string once, in one batch
             batches.append(([tuple(rnd.randint(0, 1) for _ in range(n)) for _ in all_strings], list(all_strings)))
